@@ -120,6 +120,7 @@ pub fn judge(ctx: &mut Ctx, c: &Case) {
   let cover = Cover::new(depth, &cells);
   let n_w = if r >= PI { 64 } else { 224 };
   let mut missed: Option<((f64, f64), u64, f64)> = None; let mut n_wit = 0;
+  let mut wit_cells: Vec<(u64, (f64, f64), f64)> = Vec::new();
   for k in 0..n_w {
     let (rho, th) = if k < 64 { (r * (1.0 - 1e-6), (k as f64 + 0.5) * TWO_PI / 64.0) } else { (match k % 4 { 0 => r * rng.f().sqrt(), 1 => r * (1.0 - 1e-3 * rng.f()), 2 => r * rng.f(), _ => r * (1.0 - rng.log_uniform(1e-7, 0.5)) }, rng.f() * TWO_PI) };
     let p = point_at(lon, lat, rho.min(PI), th);
@@ -127,6 +128,7 @@ pub fn judge(ctx: &mut Ctx, c: &Case) {
     if !(d <= r * (1.0 - 1e-9)) { continue; }
     n_wit += 1;
     let h = match catch(|| layer.hash(p.0, p.1)) { Ok(h) => h, Err(_) => continue };
+    wit_cells.push((h, p, d));
     if cover.get(depth, h).is_none() && missed.is_none() { missed = Some((p, h, d)); }
   }
   ctx.evals_n(n_wit);
@@ -158,8 +160,15 @@ pub fn judge(ctx: &mut Ctx, c: &Case) {
     match catch(|| (nested::cone_coverage_approx_flat(depth, lon, lat, r), nested::cone_coverage_approx_custom(depth, 0, lon, lat, r))) {
       Err(p) => report(ctx, "C05", "cone-coverage-panics", c.clone().s("at", panic_loc(&p)), p),
       Ok((flat, cust)) => {
-        if cust.entries != b.entries { report(ctx, "C05", "custom(delta=0)-differs-from-approx", c.clone(), String::new()); }
-        if b.deep_size() <= 200_000 { let want = b.to_flat_array(); if flat != want { report(ctx, "C05", "flat-variant-differs-from-flattened-approx", c.clone(), format!("{} vs {}", flat.len(), want.len())); } }
+        // the property is stated per variant: each must cover every witness (equality between variants is not required)
+        let cover_c = Cover::new(depth, &cells_of(&cust));
+        let sorted = flat.windows(2).all(|w| w[0] < w[1]);
+        for &(h, p, d) in wit_cells.iter() {
+          // (a witness missed by approx itself is reported once, above, with its R5 attribution)
+          if cover_c.get(depth, h).is_none() && cover.get(depth, h).is_some() { report(ctx, "C05", "cone-coverage-misses-a-cell-containing-a-point-of-the-cone", c.clone().s("variant", "custom(delta=0)").f("ratio", ratio).f("dlon_seam", dl).b("in_start_block", true), format!("witness {:?} at {:e} rad in cell {} not covered by custom(delta=0)", p, d, h)); break; }
+          let in_flat = if sorted { flat.binary_search(&h).is_ok() } else { flat.contains(&h) };
+          if !in_flat && cover.get(depth, h).is_some() { report(ctx, "C05", "cone-coverage-misses-a-cell-containing-a-point-of-the-cone", c.clone().s("variant", "flat").f("ratio", ratio).f("dlon_seam", dl).b("in_start_block", true), format!("witness {:?} at {:e} rad in cell {} not in the flat array ({} cells)", p, d, h, flat.len())); break; }
+        }
       }
     }
   }
